@@ -596,10 +596,10 @@ theorem runCb_winv (s : St) (c : Cb) (h : WInv s) : WInv (runCb s c) := by
             split
             · have d := (drainChunks_step0 (setP s c.idx { getP s c.idx with waiter := .none }) c.idx (getP s c.idx).chunks).np
               have np := runProg_np (fuelOf (drainChunks (setP s c.idx { getP s c.idx with waiter := .none }) c.idx (getP s c.idx).chunks))
-                (drainChunks (setP s c.idx { getP s c.idx with waiter := .none }) c.idx (getP s c.idx).chunks) (.read :: rest)
+                (drainChunks (setP s c.idx { getP s c.idx with waiter := .none }) c.idx (getP s c.idx).chunks) (resumeProg (getP s c.idx) rest)
               exact ⟨fun hp => hn (d.2 (np.2 hp)), np.1.trans d.1, by rw [hh]; simp⟩
             · have np := runProg_np (fuelOf (setP s c.idx { getP s c.idx with waiter := .none }))
-                (setP s c.idx { getP s c.idx with waiter := .none }) (.read :: rest)
+                (setP s c.idx { getP s c.idx with waiter := .none }) (resumeProg (getP s c.idx) rest)
               exact ⟨fun hp => hn (np.2 hp), np.1, by rw [hh]; simp⟩
           · cases hs'
         · cases hs'
